@@ -97,7 +97,8 @@ def base_namespace():
         "iff": lambda a, b: bool(a) == bool(b), "sumto": _sumto, "toreal": float,
         "toint": lambda v: int(v), "abs": abs, "min": min, "max": max, "len": len, "int": int, "float": float,
         "sqrt": np.sqrt, "sin": np.sin, "cos": np.cos, "exp": np.exp, "log": np.log, "arctan2": np.arctan2,
-        "radians": np.radians, "np": np, "True": True, "False": False,
+        "radians": np.radians, "np": np, "True": True, "False": False, "pi": float(np.pi),
+        "creal": lambda v: float(np.real(v)), "cimag": lambda v: float(np.imag(v)),
     }
     for name, sp in SPECS.items():
         ns[name] = sp.py
